@@ -49,6 +49,9 @@ class Platform:
         Define a new macro for this platform, only if it's not already
         defined.
         """
+        # Store the canonical path: the same file may be reached through
+        # different spellings or symbolic links.
+        fn = os.path.realpath(fn)
         if fn not in self._skip_includes:
             self._skip_includes.append(fn)
 
@@ -57,7 +60,7 @@ class Platform:
         Return a boolean stating if this include file should be
         processed or skipped.
         """
-        return fn not in self._skip_includes
+        return os.path.realpath(fn) not in self._skip_includes
 
     def is_defined(self, identifier):
         """
